@@ -175,6 +175,7 @@ func runC17(r *Report) {
 	c17Replies(r)
 	c17Table(r, "R4")
 	c17BusyTransient(r, "R6")
+	c17ConnOwned(r, "R2")
 }
 
 // checkChanOp classifies one channel operation under rule R1.
@@ -1498,4 +1499,109 @@ func cellBoolAt(v ssa.Value, ret *ssa.Return) (bool, bool) {
 		return false, true
 	}
 	return constBool(last.Val)
+}
+
+// ---------- a connection that was accepted or dialled is closed or handed to a peer on every way out ----------
+
+// c17ConnOwned: tor.Server, tor.Client and Torrent.NewPeer take over the connection they are given: every way from
+// their entry to a return closes it, passes it to another of them (Client → NewPeer), or hands the peer built on it to
+// the torrent's event loop (NewPeer's send of TorAddPeer; the queue is drained at exit — R5). A return that does neither
+// leaves the socket open with nobody to close it: deleting the torrent then does not close all its connections.
+func c17ConnOwned(r *Report, rule string) {
+	p := r.P
+	owners := map[*ssa.Function]bool{}
+	for _, nm := range []string{"Server", "Client", "Torrent.NewPeer"} {
+		f := p.Func("tor", nm)
+		if !r.Anchor(rule, "tor."+nm, f != nil) {
+			continue
+		}
+		owners[f] = true
+	}
+	isConn := func(v ssa.Value) bool { return v != nil && typeIs(v.Type(), "net", "Conn") }
+	memo := map[*ssa.Function]int{}
+	var disposes func(in ssa.Instruction, d int) bool
+	var always func(h *ssa.Function, d int) bool
+	isRet := func(i ssa.Instruction) bool { _, ok := i.(*ssa.Return); return ok }
+	always = func(h *ssa.Function, d int) bool {
+		// a private helper that disposes of the connection it is given on all its paths (closeWith(conn, err))
+		if h == nil || h.Blocks == nil || relPkg(h) != "tor" || d > 2 {
+			return false
+		}
+		if v, ok := memo[h]; ok {
+			return v == 1
+		}
+		memo[h] = 0
+		has := false
+		for _, pa := range h.Params {
+			if isConn(pa) {
+				has = true
+			}
+		}
+		if !has {
+			return false
+		}
+		miss, reached := pathsMissingEntry(h, isRet, nil, []edgeReq{{Name: "disposed", Instr: func(i ssa.Instruction) bool { return disposes(i, d+1) }}})
+		if len(miss) == 0 && reached > 0 {
+			memo[h] = 1
+			return true
+		}
+		return false
+	}
+	disposes = func(in ssa.Instruction, d int) bool {
+		switch x := in.(type) {
+		case *ssa.Select:
+			for _, st := range x.States {
+				if st.Dir == types.SendOnly {
+					if mi, ok := st.Send.(*ssa.MakeInterface); ok && typeShort(mi.X.Type()) == "peer.TorAddPeer" {
+						return true
+					}
+				}
+			}
+		case *ssa.Send:
+			if mi, ok := x.X.(*ssa.MakeInterface); ok && typeShort(mi.X.Type()) == "peer.TorAddPeer" {
+				return true
+			}
+		case ssa.CallInstruction:
+			if _, isGo := in.(*ssa.Go); isGo {
+				return false
+			}
+			cc := x.Common()
+			if cc.IsInvoke() {
+				return cc.Method.Name() == "Close" && isConn(cc.Value)
+			}
+			h := cc.StaticCallee()
+			if h == nil {
+				return false
+			}
+			if df, isDefer := in.(*ssa.Defer); isDefer && h.Parent() != nil && d == 0 {
+				// defer func() { if !handedOver { conn.Close() } }(): the deferred closure closes the connection on the
+				// ways out that did not hand it over
+				_ = df
+				return anyInstr(h, func(i ssa.Instruction) bool {
+					c2, ok := i.(*ssa.Call)
+					return ok && c2.Call.IsInvoke() && c2.Call.Method.Name() == "Close" && isConn(c2.Call.Value)
+				}) != nil
+			}
+			passes := false
+			for _, a := range cc.Args {
+				if isConn(a) {
+					passes = true
+				}
+			}
+			if !passes {
+				return false
+			}
+			return owners[h] || always(h, d)
+		}
+		return false
+	}
+	n := 0
+	for f := range owners {
+		r.Fn(f)
+		n++
+		miss, reached := pathsMissingEntry(f, isRet, nil, []edgeReq{{Name: "connection closed or handed over", Instr: func(i ssa.Instruction) bool { return disposes(i, 0) }}})
+		r.Check(len(miss) == 0 && reached > 0, rule, fname(f)+"/conn-closed-or-handed-over", f.Pos(), "every way out closes the connection, passes it on, or hands its peer to the event loop",
+			fmt.Sprintf("%s can return with the connection it was given neither closed nor handed to a peer (%v): the socket stays open with nobody to close it — a torrent deleted meanwhile does not close all its connections", fname(f), miss))
+	}
+	r.Sentinel(rule+".conn-owners", n, 3)
 }
